@@ -617,4 +617,34 @@ example :
       W.num? (W.rt3s.storage.getGlobal m.name) = some 2) :=
   ⟨by decide, by decide, W.rt3s.globalsMeta[0]'(by decide), List.getElem_mem _, by decide, by decide⟩
 
+/-! ## Restart requests through the resource thread (`scheduler.rs`) -/
+
+/-- **Histories through the scheduler: no restart request is lost.**  The control endpoint writes
+requests into the restart signal; the resource thread takes a request out of the slot and carries
+it out (`restart(mode)` + `load_retain_store()`) in ONE critical section.  For every interleaving of
+requests, polls and completions, once the thread has caught up nothing is pending, every restart
+carried out earlier stays carried out, and the restart carried out LAST is the one requested last
+— so the state after the history is the state `restart(last mode)` (+ load) produces, which is
+what the warm / cold clauses are about.  A request is only ever superseded by a LATER request that
+reached the slot before the thread took the earlier one. -/
+theorem c09_sched_no_request_lost (evs : List SigEv) :
+    let s := sigQuiesce (sigRun {} evs)
+    s.slot = none ∧ s.busy = none ∧ s.blocked = none ∧
+    s.done.head? = lastRequest evs none ∧
+    ∃ more, s.done = more ++ (sigRun {} evs).done := by
+  have w0 : ({} : SigSt).wf := ⟨fun _ => rfl, fun h => by cases h⟩
+  obtain ⟨w, n⟩ := sigRun_inv evs {} w0
+  obtain ⟨a, b, c, d, e⟩ := sigQuiesce_spec _ w
+  refine ⟨a, b, c, ?_, e⟩
+  rw [d, n]
+  rfl
+
+/-- The scripted tails of the correspondence run: a request that arrives while the previous one is
+being carried out (`during`) is carried out after it; of the requests queued before the thread
+starts only the last survives (kernel-evaluated instances of the transition system). -/
+theorem c09_sched_scripts :
+    schedExecuted [(.idle, .warm), (.during, .cold)] = [.warm, .cold] ∧
+    schedExecuted [(.pre, .warm), (.pre, .cold), (.during, .warm), (.during, .warm)] = [.cold, .warm, .warm] ∧
+    schedExecuted [(.pre, .cold), (.idle, .warm)] = [.cold, .warm] := by decide
+
 end TrustVerif.C09
